@@ -70,6 +70,7 @@ fn ro_mutators_on_bucket(b: &Bucket, mb: &MBucket, probes: &[Vec<u8>], out: &mut
 }
 
 static DAMAGED_OPENS: std::sync::atomic::AtomicU64 = std::sync::atomic::AtomicU64::new(0);
+static LEGACY_OPENS: std::sync::atomic::AtomicU64 = std::sync::atomic::AtomicU64::new(0);
 
 /// (d): build the committed state of `h`, then hammer a read-only transaction.
 fn ro_case(h: &History, path: &std::path::Path, calls: &mut u64) -> Result<Vec<(String, String)>, String> {
@@ -149,6 +150,40 @@ fn ro_case(h: &History, path: &std::path::Path, calls: &mut u64) -> Result<Vec<(
                             format!("opening, reading and closing a database whose header page {} has {} changed the file's bytes", slot, what),
                         ));
                     }
+                }
+            }
+        }
+        // ... and when the file is healthy but OLD: both header pages in the layout of release 0.10 and earlier
+        // (SHA3 checksum), which the current code still reads.  Reading it is no licence to rewrite it
+        // (seeded change C06-p converted the headers to the current layout while opening).
+        if orig.len() >= 2 * ps {
+            let legacy = crate::c15::to_legacy(&orig, h.pagesize);
+            if legacy != orig {
+                std::fs::write(&dmg_path, &legacy).map_err(|e| e.to_string())?;
+                let before_l = util::fingerprint(&legacy);
+                let r = util::catch(|| -> Result<bool, String> {
+                    let db = exec::reopen_db(&dmg_path, h, 0).map_err(|e| e.to_string())?;
+                    let same = {
+                        let tx = db.tx(false).map_err(|e| e.to_string())?;
+                        exec::verify_tx_against(&tx, &model, false).is_none()
+                    };
+                    let _ = db.check();
+                    // a write transaction that is dropped does not count as a change either
+                    if let Ok(tx) = db.tx(true) {
+                        if let Ok(b) = tx.get_or_create_bucket("c06-legacy-probe") {
+                            let _ = b.put("k", "v");
+                        }
+                    }
+                    Ok(same)
+                });
+                LEGACY_OPENS.fetch_add(1, std::sync::atomic::Ordering::Relaxed);
+                let after_l = util::fingerprint(&std::fs::read(&dmg_path).map_err(|e| e.to_string())?);
+                match r {
+                    Ok(Ok(true)) | Ok(Ok(false)) | Ok(Err(_)) | Err(_) if after_l != before_l => viol.push((
+                        "open:file-bytes-changed:legacy-headers".into(),
+                        "opening, reading (and dropping a write transaction on) a database whose header pages are in the 0.10 layout changed the file's bytes".into(),
+                    )),
+                    _ => {}
                 }
             }
         }
@@ -773,6 +808,7 @@ pub fn run(ctx: &Ctx) -> Shard {
     shard.count("twin_commits_compared", twin_commits);
     shard.count("read_only_mutator_calls", ro_calls);
     shard.count("opens_of_a_database_with_one_unusable_header_page(bytes compared)", DAMAGED_OPENS.load(std::sync::atomic::Ordering::Relaxed));
+    shard.count("opens_of_a_database_with_0.10_layout_headers(bytes compared)", LEGACY_OPENS.load(std::sync::atomic::Ordering::Relaxed));
     shard.count("commits_failed_by_injected_write_error_and_checked_for_traces", failed_commits);
     shard.count("max_ops_in_a_rolled_back_tx", rolled_back_ops_max);
     for ((op, kind), n) in &total.op_results {
